@@ -85,6 +85,7 @@ shim::BoolResult boolop(const shim::BoolArgs& a) {
     c.ReverseSolution(a.reverse);
 #ifdef USINGZ
     ZState zs{a.zcb, a.zconst, 1000000, &r.zlog};
+    c.DefaultZ = a.defaultZ;
     if (a.zcb)
       c.SetZCallback([&zs](const Point64& e1b, const Point64& e1t, const Point64& e2b, const Point64& e2t, Point64& pt) {
         if (zs.mode == 1) pt.z = zs.zconst;
